@@ -78,7 +78,7 @@ REQUIRED_CLASSES = [
 ]
 # safety caps only (the machine is shared): nominal cost is ~0.4 k core-s (quick) / ~7 k core-s (thorough),
 # i.e. ~30 s / ~7 min on 16 free cores
-BUDGET_S = {"quick": 900, "thorough": 5400}
+BUDGET_S = {"quick": 1800, "thorough": 7200}
 CHUNK = 2
 
 _K = {"quick": 7, "thorough": 12}
